@@ -2,6 +2,7 @@ package main
 
 import (
 	"fmt"
+	"regexp"
 	"sort"
 	"strings"
 
@@ -747,7 +748,118 @@ func ruleC15(c *Ctx, r *Report) {
 		}
 		r.Check(usesHash, "C15-R5", planFn.Name()+":uses-HashName", c.Pos(planFn.Pos()), "index key names are replaced by HashName pseudonyms (same function as the filter keys)", "the plan-summary rewrite does not use the shared pseudonym function: names no longer line up with the filter")
 		r.Check(len(selfRewrite) == 0, "C15-R5", planFn.Name()+":single-pass", c.Pos(planFn.Pos()), "no substring replacement is applied to its own previous output", fmt.Sprintf("strings.Replace* over its own previous result at %v: later names are replaced inside earlier pseudonyms / the prefix / 'IXSCAN'", selfRewrite))
+		planSummaryTokenizerRule(c, r, planFn)
 	}
+}
+
+// planSummaryTokenizerRule: the constant regular expressions that cut the plan summary
+// into index-key tokens are evaluated by the checker (constant folding on source
+// constants, no repository code runs) on probe summaries: every key - in particular a
+// dotted path of an embedded field - must come out as one whole token, because the
+// pseudonym of a path is built from the whole path and has to equal the one the same
+// path gets as a filter / sort key.
+func planSummaryTokenizerRule(c *Ctx, r *Report, planFn *ssa.Function) {
+	pats := map[*ssa.Global]string{}
+	if initFn := c.Fn("init"); initFn != nil {
+		allInstrs(initFn, func(i ssa.Instruction) {
+			if st, ok := i.(*ssa.Store); ok {
+				if g, ok := st.Addr.(*ssa.Global); ok {
+					if call, ok := st.Val.(*ssa.Call); ok && calleeKey(&call.Call) == "regexp.MustCompile" {
+						if p, ok := constString(call.Call.Args[0]); ok {
+							pats[g] = p
+						}
+					}
+				}
+			}
+		})
+	}
+	// regexps used by the rewrite, ordered by closure nesting depth (outer block regexp first)
+	type used struct {
+		g     *ssa.Global
+		depth int
+	}
+	var us []used
+	seen := map[*ssa.Global]bool{}
+	for f := range c.pkgReach(planFn) {
+		depth := 0
+		for q := f; q != nil && q != planFn; q = q.Parent() {
+			depth++
+		}
+		if f != planFn && f.Parent() == nil {
+			continue // a named helper (the pseudonym function): not part of the tokenizer
+		}
+		allInstrs(f, func(i ssa.Instruction) {
+			cc := callCommonOf(i)
+			if cc == nil || !strings.HasPrefix(calleeKey(cc), "(*regexp.Regexp).") || len(cc.Args) == 0 {
+				return
+			}
+			if ld, ok := cc.Args[0].(*ssa.UnOp); ok {
+				if g, ok := ld.X.(*ssa.Global); ok && !seen[g] {
+					if strings.Contains(calleeKey(cc), "Replace") || strings.Contains(calleeKey(cc), "FindAll") {
+						seen[g] = true
+						us = append(us, used{g, depth})
+					}
+				}
+			}
+		})
+	}
+	sort.Slice(us, func(i, j int) bool { return us[i].depth < us[j].depth })
+	construct := planFn.Name() + ":key-tokenizer"
+	if len(us) == 0 || len(us) > 2 {
+		r.Undecided("C15-R5", construct, c.Pos(planFn.Pos()), fmt.Sprintf("%d constant regular expressions drive the plan-summary rewrite (1 or 2 expected)", len(us)))
+		return
+	}
+	var res []*regexp.Regexp
+	var shown []string
+	for _, u := range us {
+		p, ok := pats[u.g]
+		if !ok {
+			r.Undecided("C15-R5", construct, c.Pos(planFn.Pos()), "regexp "+u.g.Name()+" is not compiled from a constant pattern")
+			return
+		}
+		re, err := regexp.Compile(p)
+		if err != nil {
+			r.Bad("C15-R5", construct, c.Pos(planFn.Pos()), "pattern of "+u.g.Name()+" does not compile: "+err.Error())
+			return
+		}
+		res = append(res, re)
+		shown = append(shown, u.g.Name()+"="+p)
+	}
+	probes := []struct {
+		summary string
+		keys    []string
+	}{
+		{"IXSCAN { foo: 1 }", []string{"foo"}},
+		{"IXSCAN { homeAddress.postcode: 1, a_b.c-d: -1 }", []string{"homeAddress.postcode", "a_b.c-d"}},
+		{"IXSCAN { _id: 1 }, IXSCAN { orders.items.sku : 1, ts:-1 }", []string{"_id", "orders.items.sku", "ts"}},
+		{"COLLSCAN", nil},
+		{"IXSCAN { caf\u00e9.prix: 1, $**: 1 }", []string{"caf\u00e9.prix", "$**"}},
+	}
+	var bad []string
+	for _, pr := range probes {
+		pieces := []string{pr.summary}
+		for _, re := range res {
+			var next []string
+			for _, p := range pieces {
+				next = append(next, re.FindAllString(p, -1)...)
+			}
+			pieces = next
+		}
+		var names []string
+		for _, t := range pieces {
+			names = append(names, strings.TrimSpace(strings.TrimSuffix(strings.TrimSpace(t), ":")))
+		}
+		if len(res) == 1 {
+			// single-level tokenizer: tokens may carry the stage word; accept names that end with a key
+			// (not used by today's two-level form)
+		}
+		if strings.Join(names, "|") != strings.Join(pr.keys, "|") {
+			bad = append(bad, fmt.Sprintf("%q is cut into %q, the index keys are %q", pr.summary, names, pr.keys))
+		}
+	}
+	r.Check(len(bad) == 0, "C15-R5", construct, c.Pos(planFn.Pos()),
+		fmt.Sprintf("the constant tokenizer (%s) yields every index key, dotted paths included, as one whole token on %d probe summaries (evaluated by the checker on the source constants)", strings.Join(shown, " ; "), len(probes)),
+		"the plan-summary tokenizer does not isolate whole index keys, so a key's pseudonym differs from the one the same path gets in the filter (or part of the name stays in clear): "+strings.Join(bad, "; "))
 }
 
 func describeArg(a ssa.Value) string {
